@@ -348,6 +348,34 @@ mod verif_kani {
         core::mem::forget(code);
     }
 
+    //@harness props=C12,C18 kind=bounded fns=Token::insert_leading_trivia bound="token with 2 leading trivia; insertion index over ALL usize values" budget=300
+    //@ desc="insert_leading_trivia(index, t) never panics, for any index: the trivia is inserted at position min(index, len); the other leading trivia keep their order; trailing trivia and the code token are untouched"
+    #[kani::proof]
+    #[kani::unwind(5)]
+    fn vk_token_insert_leading_trivia() {
+        let k: [bool; 3] = [kani::any(), kani::any(), kani::any()];
+        let e: [usize; 3] = [kani::any(), kani::any(), kani::any()];
+        let l: [usize; 3] = [kani::any(), kani::any(), kani::any()];
+        let mut t = Token {
+            position: Position::Any { content: Cow::Borrowed("y") },
+            leading_trivia: vec![tagged(k[0], 0, e[0], l[0]), tagged(k[1], 1, e[1], l[1])],
+            trailing_trivia: vec![tagged(k[2], 2, e[2], l[2])],
+        };
+        let index: usize = kani::any();
+        let nk: bool = kani::any();
+        t.insert_leading_trivia(index, tagged(nk, 9, 9, 9));
+        assert!(t.leading_trivia.len() == 3, "exactly one trivia is added");
+        let at = if index > 2 { 2 } else { index };
+        assert!(is_tagged(&t.leading_trivia[at], nk, 9, 9, 9), "the trivia lands at min(index, len)");
+        let first = if at == 0 { 1 } else { 0 };
+        let second = if at == 2 { 1 } else { 2 };
+        assert!(is_tagged(&t.leading_trivia[first], k[0], 0, e[0], l[0]) && is_tagged(&t.leading_trivia[second], k[1], 1, e[1], l[1]), "the other leading trivia keep their order");
+        assert!(t.trailing_trivia.len() == 1 && is_tagged(&t.trailing_trivia[0], k[2], 2, e[2], l[2]), "frame: trailing trivia unchanged");
+        kani::cover!(index > 100);
+        kani::cover!(index == 1);
+        core::mem::forget(t);
+    }
+
     //@harness props=C04 kind=mustfail fns=Token::shift_token_line
     //@ desc="vacuity witness: the false claim `shift_token_line never changes the line` must be refuted"
     #[kani::proof]
